@@ -20,9 +20,14 @@ def files_of(d):
 
 def round4():
     p = os.path.join(V, "seeded", "MATRIX_round4_final.json")
-    if not os.path.exists(p):
+    pall = os.path.join(V, "seeded", "MATRIX_all_final.json")
+    if not os.path.exists(p) and not os.path.exists(pall):
         return "(table not generated: %s missing)" % os.path.basename(p)
-    m = json.load(open(p))
+    m = json.load(open(p)) if os.path.exists(p) else {}
+    allm = json.load(open(pall)) if os.path.exists(pall) else {}
+    for k, v in allm.items():
+        if k[-1] in "ijk":
+            m[k] = v              # the later run (all rounds, final rules) wins
     rows = ["| seed | files | caught by (final rules) |", "|------|-------|-------------------------|"]
     own = other = missed = 0
     for s in sorted(m):
@@ -40,6 +45,17 @@ def round4():
     rows.append("")
     rows.append("%d seeds re-run: %d detected by their own property's check, %d by another property's check "
                 "only, %d not detected." % (len(m), own, other, missed))
+    if allm:
+        o = sum(1 for k, v in allm.items() if k[:3] in v["detected_by"])
+        a = sum(1 for k, v in allm.items() if v["detected_by"] and k[:3] not in v["detected_by"])
+        z = sorted(k for k, v in allm.items() if not v["detected_by"])
+        e2 = sorted(k for k, v in allm.items() if v.get("errors"))
+        rows.append("")
+        rows.append("All rounds with the final rules (`seeded/MATRIX_all_final.json`, `tools_seed_quickmatrix.py`: "
+                    "own property + every check that reported the seed in the full matrix): %d seeds, %d detected "
+                    "by their own property's check, %d by another property's check only, not detected: %s; runs "
+                    "ending in exit 2 for some check: %s." % (
+                        len(allm), o, a, ", ".join(z) or "none", ", ".join(e2) or "none"))
     return "\n".join(rows)
 
 
